@@ -158,6 +158,28 @@ theorem import_export_importUint_value (w v optBits : Nat) (hv : v < 2 ^ w) (hw 
     (exportString (importUint w v optBits)).bind importString = some ⟨toBytesLE 8 v, 64, .unsigned⟩ :=
   importUint_reimport optBits hv hw h64
 
+/-! ### the export option `OmitPrefix` (the only field of `BMNumberConfig`; `bmnumbers -omit-prefix`) -/
+
+/-- dropping the prefix of `prefix ++ rest` returns `rest` (for a `rest` without the prefix letter) -/
+theorem omitPrefix_prefix (t : NType) (rest : List Nat) (h : ∀ c ∈ rest, c ≠ prefixLetter t) :
+    omitPrefix t (showPrefix t ++ rest) = rest := BMV.Numbers.omitPrefix_prefix t rest h
+
+/-- bin / hex: putting the prefix back in front of the `OmitPrefix` text gives the full text again,
+    so the round trips `import_export_bin` / `import_export_hex` carry over to the option -/
+theorem omit_prefix_readd_bin (v : BMNumber) (h : v.ty = .bin) :
+    (exportStringOmit v).map (showPrefix .bin ++ ·) = exportString v := omit_readd_bin v h
+
+theorem omit_prefix_readd_hex (v : BMNumber) (h : v.ty = .hex) :
+    (exportStringOmit v).map (showPrefix .hex ++ ·) = exportString v := omit_readd_hex v h
+
+/-- unsigned: the text has no prefix, the option changes nothing, and `0u` ++ text imports the same -/
+theorem omit_prefix_unsigned (v : BMNumber) (h : v.ty = .unsigned) : exportStringOmit v = exportString v :=
+  omit_unsigned v h
+
+theorem omit_prefix_readd_unsigned (n : Nat) :
+    importString (showPrefix .unsigned ++ digits 10 n) = importString (digits 10 n) :=
+  import_readd_unsigned n
+
 /-! ### widths -/
 
 /-- `ExportBinaryNBits(n)` returns exactly `n` digits whenever it succeeds … -/
@@ -199,6 +221,9 @@ example : WFS64 ⟨[255, 255, 255, 255, 255, 255, 255, 255], 64, .signed⟩ :=
 example : importUint 64 0x0102030405060708 0 = ⟨[8, 7, 6, 5, 4, 3, 2, 1], 64, .unsigned⟩ := by decide +kernel
 example : exportString (importUint 64 0x10000000000 0) = some (ofString "1099511627776") := by decide +kernel
 example : exportUint64 (importUint 16 0xBEEF 0) = some 0xBEEF := by decide +kernel
+example : exportStringOmit ⟨[5], 5, .bin⟩ = some (ofString "<5>101") := by
+  simp [exportStringOmit, exportString, exportBinary, binRaw, omitPrefix, prefixLetter, removeAll2, digits,
+    digitsAux, digitChar, valOf, ofString]
 example : importBytes [1, 2] 16 = ⟨[2, 1], 16, .unsigned⟩ := by decide +kernel
 example : importString (ofString "0b<5>101") = some ⟨[5], 5, .bin⟩ := by decide +kernel
 example : exportString ⟨[5], 5, .bin⟩ = some (ofString "0b<5>101") := by decide +kernel
